@@ -568,7 +568,7 @@ GAS_CFGS_FULL = GAS_CFGS_QUICK + [
 
 
 # quick tiers leave out the families another property's quick tier already analyses
-CORE_FAMS = ["arith", "cast", "felt", "bool", "wide", "bounded", "plumb", "gas", "hash", "spec",
+CORE_FAMS = ["arith", "arith2", "pow", "cast", "felt", "bool", "wide", "bounded", "plumb", "gas", "hash", "spec",
              "bigap", "flow", "edge", "shuf"]
 
 
@@ -607,7 +607,7 @@ def run_c01(args):
     os.environ["VERIF_SEED"] = str(args.seed)
     return generic(args, "C01", workers.c06_worker, [("default", {"gas": False})], confirm_c06,
                    level="translation_validation",
-                   families=args.families or ["gen", "shuf", "plumb", "fold", "spec", "flow"],
+                   families=args.families or ["gen", "shuf", "plumb", "fold", "spec", "flow", "pow"],
                    extra_task=lambda fam, e: (fam, 0))
 
 
@@ -637,7 +637,7 @@ def run_c05(args):
     os.environ["VERIF_SEED"] = str(args.seed)
     work = common.workdir("C05" + ("_adhoc%d" % os.getpid() if (args.only or args.families) else ""))
     build_s = common.build_tool()
-    fams = args.families or ["gen", "shuf", "plumb", "fold", "spec", "flow"]
+    fams = args.families or ["gen", "shuf", "plumb", "fold", "spec", "flow", "pow"]
     # compiled the way `cairo-run` does without --available-gas (no gas paths)
     base_cfg = {"optimizations": "disabled", "gas": False}
     variants = C05_VARIANTS_FULL if tier == "thorough" else C05_VARIANTS_QUICK
@@ -756,7 +756,7 @@ def run_c05(args):
 def run_c06(args):
     # Families whose specifications are gas-independent only (loops get an out-of-gas path under
     # the default configuration; those families are checked by C01, compiled without gas).
-    c06_quick = ["arith", "cast", "felt", "bool", "wide", "bounded", "plumb", "hash"]
+    c06_quick = ["arith", "arith2", "cast", "felt", "bool", "wide", "bounded", "plumb", "hash"]
     fams = args.families or (c06_quick + ["fold"] if args.tier == "thorough" else c06_quick)
     return generic(args, "C06", workers.c06_worker, [("default", {})], confirm_c06,
                    extra_task=lambda fam, e: (fam, 0), families=fams)
